@@ -190,7 +190,10 @@ func convModel(arg ArgSpec, kind string) (expect, string) {
 		if kind == "float32" {
 			return expect{Kind: "float32", F: f}, "ok"
 		}
-		return expect{Kind: "float", F: f}, "ok"
+		// an integer written in plain digits that fits a machine word is converted with a single rounding: the nearest
+		// float64 exactly (elsewhere the decimal library rounds coefficient and power of ten separately: one ulp of slack)
+		plain := len(arg.Num) <= 19 && strings.Trim(strings.TrimPrefix(arg.Num, "-"), "0123456789") == ""
+		return expect{Kind: "float", F: f, B: plain}, "ok"
 	case "dec":
 		if arg.K != "num" {
 			return expect{}, "reject"
@@ -300,7 +303,7 @@ func (e expect) matches(got interface{}) bool {
 		return false
 	case "float":
 		f, ok := got.(float64)
-		return ok && (f == e.F || ulpDiff(f, e.F) <= 1)
+		return ok && (f == e.F || (!e.B && ulpDiff(f, e.F) <= 1))
 	case "float32":
 		f, ok := got.(float32)
 		if !ok {
@@ -682,7 +685,8 @@ func sigString(s SigSpec) string {
 
 var argPool = []ArgSpec{
 	{K: "num", Num: "3"}, {K: "num", Num: "2.7"}, {K: "num", Num: "-2.7"}, {K: "num", Num: "0"}, {K: "num", Num: "1e3"}, {K: "num", Num: "0.1"}, {K: "num", Num: "-0.5"}, {K: "num", Num: "123456789"},
-	{K: "num", Num: "300"}, {K: "num", Num: "9007199254740993"}, {K: "num", Num: "99999999999"},
+	{K: "num", Num: "300"}, {K: "num", Num: "9007199254740993"}, {K: "num", Num: "99999999999"}, {K: "num", Num: "9007199254740993000"}, {K: "num", Num: "1234567890123456700"}, {K: "num", Num: "-9007199254740993000"},
+	{K: "num", Num: "18014398509481985000"}, {K: "num", Num: "900719925474099300"},
 	{K: "str", S: "s"}, {K: "str", S: ""}, {K: "str", S: "12"}, {K: "bool", B: true}, {K: "bool", B: false}, {K: "null"},
 	{K: "arr", Elems: []ArgSpec{{K: "num", Num: "1"}, {K: "num", Num: "2.5"}}}, {K: "arr", Elems: []ArgSpec{{K: "str", S: "a"}, {K: "str", S: "b"}}}, {K: "arr", Elems: []ArgSpec{}},
 	{K: "arr", Elems: []ArgSpec{{K: "num", Num: "1"}, {K: "str", S: "x"}}}, {K: "arr", Elems: []ArgSpec{{K: "num", Num: "-7.9"}}}, {K: "arr", Elems: []ArgSpec{{K: "null"}}},
